@@ -72,6 +72,20 @@ func init() {
 		"core.ObjectStream.GetObjectByIndex", "filters.applyPNGPredictor", "filters.applyTIFFPredictor2", "tabula.Extractor.resolvePages",
 		"xlsx.Reader.parseWorksheet", "core.XRefParser.ParseAllXRefs", "pages.PageTree.traversePageNode", "reader.Reader.ResolveDeep",
 		"text.Extractor.invokeXObject", "tabula.Extractor.IsCharacterLevel", "docx.Open", "odt.Open", "pptx.Open", "epubdoc.Open", "htmldoc.OpenReader", "format.DetectFromReader"}
+	props["C14"] = propInfo{
+		level:     "exploration",
+		quickRuns: 12000, chunk: 200, thoroughS: 600, thoroughMax: 50000000,
+		rule: "run i draws a chunk collection (0-40 chunks; ids, texts, titles and section paths assembled from a hostile vocabulary: delimiters, quotes, CR / LF / CRLF, NUL, non-BMP, JSON-looking text, formula-looking text, U+2028, BOM), an export configuration (JSONL / JSON / CSV / TSV, flattening, metadata include lists incl. unknown fields, header on/off, pretty printing, custom column names, batch size 1-12) and an operation (Export to a writer, ExportToFile, BatchExporter with a callback, StreamExporter histories of WriteChunk / Close, Pinecone / Chroma / Weaviate records, collection filters and filter chains). 45% of the runs inject a sink fault at a byte offset class computed from the fault-free output (0, inside the header, inside a record, exactly at a record boundary, the last bytes, never): a writer that accepts b bytes and then returns (n < len, ENOSPC) forever, a writer that fails exactly one write and recovers, /dev/full or an uncreatable path as ExportToFile target, a callback that fails at batch j. Oracle: output parsed with encoding/json / encoding/csv to one record per chunk in order with equal id, text, titles, pages, index, flags, section path and sampled metadata; batches and streamed records partition the chunk list exactly once in order; success is only reported when the sink holds a complete export; what reached the sink before a reported failure is a prefix of the fault-free output; no batch after a failed callback; filters return exactly the satisfying chunks in order. Non-trivial = at least one chunk; distinct = distinct (operation, configuration, sink fault class, sizes).",
+		assume: []string{
+			"CR LF inside a CSV field is compared after the normalisation encoding/csv itself applies when reading (CR LF -> LF)",
+			"CSV metadata columns holding lists or floats are not compared value by value (their text form is not uniquely parseable); ids, text, titles, pages, index and flags are",
+			"batch sizes are >= 1; chunk texts are valid UTF-8",
+		},
+		simulated: []string{"the sink behind io.Writer (disk full, short write, transient failure)", "ExportToFile targets (/dev/full, uncreatable path)", "the batch callback", "StreamExporter call histories"},
+	}
+	anchors["C14"] = []string{"rag.Exporter.exportJSONL", "rag.Exporter.exportJSON", "rag.Exporter.exportCSV", "rag.Exporter.collectCSVColumns", "rag.Exporter.chunkToCSVRow",
+		"rag.BatchExporter.Export", "rag.StreamExporter.WriteChunk", "rag.StreamExporter.Close", "rag.ChunkCollection.Filter", "rag.EmbeddingExporter.ExportForPinecone",
+		"rag.EmbeddingExporter.ExportForChroma", "rag.EmbeddingExporter.ExportForWeaviate", "rag.Exporter.ExportToFile"}
 	anchors["C03"] = []string{"contentstream.Parser.parseNext", "contentstream.Parser.parseOperator", "text.Extractor.RegisterFontsFromResources",
 		"rag.Exporter.collectCSVColumns", "layout.LineDetector.calculateAdaptiveTolerance", "tabula.Extractor.clone", "tabula.ExtractOptions.clone",
 		"core.Dict.String", "rag.flattenMetadata"}
